@@ -83,6 +83,7 @@ func (x *Exec) execInstr(fr *Frame, st *State, in ssa.Instruction) {
 		case *types.Map:
 			m := x.term(fr, i.X)
 			k := x.toTerm(x.val(fr, i.Index), xt.Key())
+			x.guardMap(st, x.regionOf(i.X), m, false, i.Pos())
 			dn, ds, vn, vs := te.mapHeaps(xt, x.regionOf(i.X))
 			dom := mkSelect(mkSelect(st.H(dn, ds), m), k)
 			raw := mkSelect(mkSelect(st.H(vn, vs), m), k)
@@ -189,6 +190,7 @@ func (x *Exec) execInstr(fr *Frame, st *State, in ssa.Instruction) {
 	case *ssa.Range:
 		switch xt := i.X.Type().Underlying().(type) {
 		case *types.Map:
+			x.guardMap(st, x.regionOf(i.X), x.term(fr, i.X), false, i.Pos())
 			fr.regs[i] = &IterVal{Map: x.term(fr, i.X), MTyp: xt, Region: x.regionOf(i.X)}
 		default:
 			x.unsup("range over %v", i.X.Type())
@@ -259,6 +261,7 @@ func (x *Exec) regionOf(v ssa.Value) string {
 
 func (x *Exec) mapStore(st *State, mt *types.Map, region string, m, k, v *Term, present bool, pos token.Pos) {
 	te := x.env.te
+	x.guardMap(st, region, m, true, pos)
 	dn, ds, vn, vs := te.mapHeaps(mt, region)
 	x.checkWrite(st, dn, m, pos)
 	dh := st.H(dn, ds)
